@@ -115,8 +115,11 @@ class C02(Spec):
                     h.append("anotb %d %d %d %d %d" % (rng.choice(sk), rng.choice(sk), r2, rng.randrange(2), seed))
                     if rng.random() < 0.5:
                         sk.append(r2)
-                else:
+                elif r < 0.96:
                     h.append("jac %d %d %d" % (rng.choice(sk), rng.choice(sk), seed))
+                else:
+                    a = rng.choice(sk)
+                    h.append("jeq %d %d %d" % (a, a if rng.random() < 0.2 else rng.choice(sk), seed))
             hs.append(h)
         return hs
 
@@ -271,6 +274,15 @@ class C02(Spec):
                     bad.append(("anotb-ordered-flag", out[:60], i))
                 if o["ordered"] and o["ents"] != sorted(o["ents"]):
                     bad.append(("ordered-result-not-sorted", out[:60], i))
+            elif op == "jeq":
+                a = obs.get(int(w[1])); b = obs.get(int(w[2]))
+                if a is None or b is None or a["ents"] is None or b["ents"] is None or out == "throw":
+                    continue
+                if not a["est_mode"] and not b["est_mode"] and a["seedhash"] == b["seedhash"]:
+                    want = (w[1] == w[2]) or (a["empty"] and b["empty"]) or \
+                           (not a["empty"] and not b["empty"] and set(a["ents"]) == set(b["ents"]))
+                    if out != "E %d" % (1 if want else 0):
+                        bad.append(("exactly-equal-wrong-in-exact-mode", "%s want %s" % (out, want), i))
             elif op == "jac":
                 a = obs.get(int(w[1])); b = obs.get(int(w[2]))
                 if a is None or b is None or a["ents"] is None or b["ents"] is None or out == "throw":
